@@ -559,7 +559,10 @@ def write_evidence(pid, tier, seed, level, coverage, assumptions, wall_s, violat
         'coverage': coverage, 'assumptions': assumptions, 'wall_s': round(wall_s, 3),
         'violations': violations,
     }
-    os.makedirs(os.path.join(VERIF, 'evidence'), exist_ok=True)
-    with open(os.path.join(VERIF, 'evidence', pid + '.json'), 'w') as f:
+    # runs against a scratch copy of the repository (VERIF_REPO, used for seeded changes) must not overwrite the
+    # evidence of the real tree
+    evdir = 'evidence' if REPO == '/repo' else 'evidence-scratch'
+    os.makedirs(os.path.join(VERIF, evdir), exist_ok=True)
+    with open(os.path.join(VERIF, evdir, pid + '.json'), 'w') as f:
         json.dump(ev, f, indent=1, default=str)
     return ev
